@@ -407,12 +407,13 @@ def c14_hand_back_only_own_blocks(ctx, v):
         if o.kind in ("unsupported", "path-limit"):
             return v.undecided("%s %s" % (o.kind, o.info))
         calls = [e[1] for e in o.events if e[0] == "call"]
-        writes = [c for c in calls if re.search(r"(?:AHashMap|HashMap)::<\[u8; 64\], Transaction[^>]*>::insert$|Mempool::add_transaction", c)]
+        writes = [c for c in calls if re.search(r"(?:AHashMap|HashMap)::<\[u8; 64\], Transaction[^>]*>::insert$", c)]   # going through Mempool::add_transaction (conflict check, reservation) would be fine for any block
         drains = [c for c in calls if re.search(r"::drain::|::drain$|into_par_iter|par_drain", c)]
-        if not (writes or drains):
+        if writes or drains:
+            touched += 1
+        if not writes:
             n += 1
             continue
-        touched += 1
         v.queries += 1
         if ex.feasible(o.pc, z3.Not(own)):
             v.fail("add_block_transactions_back puts transactions of a rejected block that this node did not create back into the pool (past the conflict check of add_transaction)",
@@ -421,3 +422,42 @@ def c14_hand_back_only_own_blocks(ctx, v):
         return v.undecided("the hand-back branch was never reached")
     v.covers_total += 1
     v.covers_sat += 1 if n else 0
+
+
+def c14_tick_admits_through_validation(ctx, v):
+    """ConsensusThread::bundle_block (the block-producing tick), the loop that moves the transactions
+    received since the last tick into the pool: a waiting transaction enters the pool only through
+    Mempool::add_transaction_if_validates (which re-validates it against the ledger of THIS moment —
+    a block added between receipt and the tick may have spent its inputs), never through
+    add_transaction or a direct insertion.  Explored up to the golden-ticket look-up that follows
+    the loop; one waiting transaction of any non-golden-ticket type."""
+    ex = ctx.executor(loop_bound=4, inline="auto", max_paths=2000, no_inline=[r"Mempool::add_transaction_if_validates$", r"Mempool::add_transaction$", r"fmt", r"to_hex"])
+    ex.pure = [r".*"]
+    ex.stop_calls = [r"(?:AHashMap|HashMap)::<\[u8; 32\], \(Transaction, bool\)[^>]*>::get::", r"get_latest_block_hash$"]
+    tt = ex.fresh_value("TransactionType", "waiting.type")
+    tx = ctx.mk_struct(ex, "Transaction", "waiting", transaction_type=tt)
+    thread = ctx.mk_struct(ex, "ConsensusThread", "consensus_thread", txs_for_mempool=S.Seq([tx], "Transaction"))
+    st = S.State()
+    st.pc.extend([L.enum_in_range(tt, L.TX_TYPES), z3.Not(L.enum_is(ctx, tt, "TransactionType", "GoldenTicket"))])
+    body, co = L.coroutine(ctx, ex, r"consensus_thread::<impl at [^>]*>::bundle_block", [S.Ref(S.Cell(thread), (), True), ex.fresh_value("u64", "timestamp"), ex.fresh_value("bool", "produce_without_limits")])
+    outs = ex.run(body, [S.Ref(S.Cell(co), (), True), S.Opaque("cx", "Context")], st)
+    v.paths += len(outs)
+    n = 0
+    for o in outs:
+        if o.kind in ("unsupported", "unwound", "path-limit"):
+            return v.undecided("%s %s" % (o.kind, o.info))
+        if o.kind not in ("stopped", "return"):
+            continue
+        calls = [e[1] for e in o.events if e[0] == "call"]
+        through = [c for c in calls if re.search(r"Mempool::add_transaction_if_validates$", c)]
+        direct = [c for c in calls if re.search(r"Mempool::add_transaction$|(?:AHashMap|HashMap)::<\[u8; 64\], Transaction[^>]*>::insert$", c)]
+        v.queries += 1
+        if direct and ex.feasible(o.pc):
+            v.fail("the block-producing tick puts a waiting transaction into the pool without re-validating it against the current ledger (%s)" % direct[0].split("::")[-1])
+            continue
+        if through:
+            n += 1
+    if not n:
+        return v.undecided("the admission loop was not reached")
+    v.covers_total += 1
+    v.covers_sat += 1
